@@ -791,10 +791,13 @@ def check(spec):
         op = Tm.build(a, W)
         stage = route
         return _check(spec, Tm, regs, W, op, variant)
-    except HARNESS:
-        raise
     except X.Unsupported:
         raise
+    except HARNESS as e:
+        if not (isinstance(e, ImportError) and "autoray" in str(e)):
+            raise
+        # autoray reports a missing backend function as ImportError: that is the implementation failing, not the harness
+        return bad(f"{t}[{variant}]:{stage}:exception:ImportError(autoray)", f"{e}"[:300], "no exception")
     except Exception as e:  # noqa: BLE001
         import traceback
 
